@@ -1,0 +1,38 @@
+//go:build verif
+
+// Contracts for package diff (comment-only; read by /verif/govc, ignored by the compiler).
+package diff
+
+// C16: a diff is empty exactly when the values are equal; otherwise its sides are the two
+// arguments in the order given.
+//@ func diff.DiffDepth
+//@   ensures empty-iff-equal: result.1 == nil ==> ((result.0 == nil) <==> steq(old, new))
+//@   ensures sides-literal: (result.1 == nil && istype(result.0, "*diff.LiteralDiff")) ==> (result.0.(*diff.LiteralDiff).old == old && result.0.(*diff.LiteralDiff).new == new)
+//@   ensures sides-slice: (result.1 == nil && istype(result.0, "*diff.SliceableDiff")) ==> (result.0.(*diff.SliceableDiff).old == old && result.0.(*diff.SliceableDiff).new == new)
+//@   ensures sides-mapping: (result.1 == nil && istype(result.0, "*diff.MappingDiff")) ==> (result.0.(*diff.MappingDiff).old == old && result.0.(*diff.MappingDiff).new == new)
+//@   ensures kinds: (result.1 == nil && result.0 != nil) ==> (istype(result.0, "*diff.LiteralDiff") || istype(result.0, "*diff.SliceableDiff") || istype(result.0, "*diff.MappingDiff"))
+//@   modifies heap
+
+//@ func diff.diffSlice
+//@   ensures sides: result.1 == nil ==> (result.0 != nil && result.0.old == a && result.0.new == b)
+//@   ensures err-nil: result.1 != nil ==> result.0 == nil
+//@   modifies heap
+
+// For mappings there is an edit exactly for each key added, removed or changed.
+//@ func diff.diffMapping
+//@   requires old != nil && new != nil
+//@   ensures sides: result.1 == nil ==> (result.0 != nil && result.0.old == old && result.0.new == new)
+//@   ensures err-nil: result.1 != nil ==> result.0 == nil
+//@   ensures edits: result.1 == nil ==> (forall k: value :: dkeys[result.0.edits][k] <==> ((mhas(old, k) && !mhas(new, k)) || (!mhas(old, k) && mhas(new, k)) || (mhas(old, k) && mhas(new, k) && !steq(mget(old, k), mget(new, k)))))
+//@   modifies heap, dkeys, dvals, it_seen
+//@   loop 0: invariant edits != nil && it_src(oldKeys) == old
+//@   loop 0: invariant old-keys: forall k: value :: dkeys[edits][k] <==> (it_seen[oldKeys][k] && mhas(old, k) && (!mhas(new, k) || !steq(mget(old, k), mget(new, k))))
+//@   loop 1: invariant edits != nil && it_src(newKeys) == new
+//@   loop 1: invariant new-keys: forall k: value :: dkeys[edits][k] <==> ((mhas(old, k) && (!mhas(new, k) || !steq(mget(old, k), mget(new, k)))) || (it_seen[newKeys][k] && mhas(new, k) && !mhas(old, k)))
+
+//@ func (*diff.valueDiff).Old
+//@   requires d != nil
+//@   ensures  result == d.old
+//@ func (*diff.valueDiff).New
+//@   requires d != nil
+//@   ensures  result == d.new
